@@ -4,6 +4,7 @@ import (
 	"fmt"
 	"os"
 	"path/filepath"
+	"sync"
 )
 
 // Loader defines the interface for template loading
@@ -30,6 +31,8 @@ type FileSystemLoader struct {
 	defaultPaths []string
 	// Stores paths for each loaded template to avoid repeatedly searching for the file
 	templatePaths map[string]string
+	// Guards templatePaths: one loader serves all goroutines that use the engine
+	mu sync.RWMutex
 }
 
 // ArrayLoader loads templates from an in-memory array
@@ -69,7 +72,7 @@ func NewFileSystemLoader(paths []string) *FileSystemLoader {
 // Load loads a template from the file system
 func (l *FileSystemLoader) Load(name string) (string, error) {
 	// Check if we already know the location of this template
-	if filePath, ok := l.templatePaths[name]; ok {
+	if filePath, ok := l.knownPath(name); ok {
 		// Check if file still exists at this path
 		if _, err := os.Stat(filePath); err == nil {
 			// Read file content
@@ -81,7 +84,7 @@ func (l *FileSystemLoader) Load(name string) (string, error) {
 			return string(content), nil
 		}
 		// If file doesn't exist anymore, remove from cache and search again
-		delete(l.templatePaths, name)
+		l.forgetPath(name)
 	}
 
 	// Check each path for the template
@@ -96,7 +99,7 @@ func (l *FileSystemLoader) Load(name string) (string, error) {
 		// Check if file exists
 		if _, err := os.Stat(filePath); err == nil {
 			// Save the path for future lookups
-			l.templatePaths[name] = filePath
+			l.rememberPath(name, filePath)
 
 			// Read file content
 			content, err := os.ReadFile(filePath)
@@ -109,6 +112,28 @@ func (l *FileSystemLoader) Load(name string) (string, error) {
 	}
 
 	return "", fmt.Errorf("%w: %s", ErrTemplateNotFound, name)
+}
+
+// knownPath returns the remembered location of a template
+func (l *FileSystemLoader) knownPath(name string) (string, bool) {
+	l.mu.RLock()
+	defer l.mu.RUnlock()
+	filePath, ok := l.templatePaths[name]
+	return filePath, ok
+}
+
+// rememberPath records where a template was found
+func (l *FileSystemLoader) rememberPath(name, filePath string) {
+	l.mu.Lock()
+	defer l.mu.Unlock()
+	l.templatePaths[name] = filePath
+}
+
+// forgetPath drops a remembered location
+func (l *FileSystemLoader) forgetPath(name string) {
+	l.mu.Lock()
+	defer l.mu.Unlock()
+	delete(l.templatePaths, name)
 }
 
 // Exists checks if a template exists in the file system
@@ -139,12 +164,12 @@ func (l *FileSystemLoader) SetSuffix(suffix string) {
 // GetModifiedTime returns the last modification time of a template file
 func (l *FileSystemLoader) GetModifiedTime(name string) (int64, error) {
 	// If we already know where this template is, check that path directly
-	if filePath, ok := l.templatePaths[name]; ok {
+	if filePath, ok := l.knownPath(name); ok {
 		info, err := os.Stat(filePath)
 		if err != nil {
 			// If file doesn't exist anymore, remove from cache
 			if os.IsNotExist(err) {
-				delete(l.templatePaths, name)
+				l.forgetPath(name)
 			}
 			return 0, err
 		}
@@ -165,7 +190,7 @@ func (l *FileSystemLoader) GetModifiedTime(name string) (int64, error) {
 		info, err := os.Stat(filePath)
 		if err == nil {
 			// Save the path for future lookups
-			l.templatePaths[name] = filePath
+			l.rememberPath(name, filePath)
 
 			return info.ModTime().Unix(), nil
 		}
